@@ -170,6 +170,33 @@ def g_prog_paths(rng):
     case = {"kind": "prog", "payload": payload, "flows": flows, "mode": rng.choice(["start", "start", "activate"]), "followup": False}
     if rng.random() < 0.3:
         case["args2"] = True
+    if rng.random() < 0.3:
+        make_rounds(rng, case)
+    return case
+
+
+def make_rounds(rng, case):
+    """The SAME flows compete again: activated flows that end after their action (they restart when they finish or fail), and
+    1..2 further events E whose payload has other values — the winner of every round follows that round's payload."""
+    case["mode"] = "activate"
+    case["noend"] = True
+    for f in case["flows"]:
+        if f["shape"] not in ("direct", "await"):
+            f["shape"] = "direct"
+        wk = (f.get("wait") or {}).get("kind")
+        if wk in ("when", "and"):
+            # an and-group keeps the half that matched in an earlier round: its state would span the rounds
+            f["wait"] = {"kind": "or", "alt": None, "alt_first": False}
+        elif wk == "await_and":
+            f["wait"] = {"kind": "await_or", "alt_first": False}
+        if f["kind"] == "action":
+            f.pop("wrap", None)  # `say<d>` awaits the action: the flow would not end
+        f["pre"] = [p for p in f.get("pre", []) if p != "starthelper"]
+    payload = case["payload"]
+    rounds = []
+    for _ in range(rng.choice([1, 1, 2])):
+        rounds.append({k: (v if rng.random() < 0.5 else 3 - v) for k, v in payload.items()})
+    case["rounds"] = rounds
     return case
 
 
@@ -409,7 +436,8 @@ def render(case):
             body += ["  match F()", "  send $r.Stop()"]
         if f.get("restart_after"):
             body += ["  match F()", "  send $r.Start()"]
-        body.append("  match Never()")
+        if not case.get("noend"):
+            body.append("  match Never()")
         out.append(deco + head + "\n" + "\n".join(body) + "\n")
     kw = "activate" if case["mode"] == "activate" else "start"
     top = lambda i, f: ("o" if f["shape"] == "borrow" else "f") + str(i)  # noqa
@@ -560,6 +588,8 @@ def run_prog(case):
         events.append(dict({"type": "E2"}, **case["payload"]))
     if case.get("followup"):
         events += [{"type": "F"}, {"type": "G"}]
+    for pl in case.get("rounds", []):
+        events.append(dict({"type": "E"}, **pl))
     seen_sig = set()
     # "tree": systematic exploration of the tie-break tree — every run reports the candidate count of each random.choice
     # call; for every call beyond the forced prefix with n > 1 candidates the alternatives 1..min(n,4)-1 are scheduled.
@@ -584,14 +614,18 @@ def run_prog(case):
             obs["skip"] = "init:" + type(e).__name__ + ":" + str(e)[:80]
             return obs
         run["start_out"] = len(st.outgoing_events)
-        # the competing instances (first instance of every f<i>)
-        inst = {}
-        for uid, fs in st.flow_states.items():
-            if fs.flow_id.startswith("f") and fs.flow_id[1:].isdigit() and fs.flow_id not in inst and fs.status.value in ("started", "starting", "waiting") and fs.heads:
-                inst[fs.flow_id] = uid
+        # the competing instances (first live instance of every f<i>)
+        def instances():
+            d = {}
+            for uid, fs in st.flow_states.items():
+                if fs.flow_id.startswith("f") and fs.flow_id[1:].isdigit() and fs.flow_id not in d and fs.status.value in ("started", "starting", "waiting") and fs.heads:
+                    d[fs.flow_id] = uid
+            return d
+
+        inst = instances()
         run["inst"] = inst
 
-        def snap():
+        def snap(inst=inst):
             d = {}
             for fid, uid in inst.items():
                 fs = st.flow_states.get(uid)
@@ -604,15 +638,18 @@ def run_prog(case):
 
         run["before"] = snap()
         with Recorder(sm, choices) as rec:
-            for ev in events:
+            for k_ev, ev in enumerate(events):
                 step = {}
+                if case.get("rounds") and k_ev > 0:
+                    step["inst"] = instances()
+                    step["before"] = snap(step["inst"])
                 try:
                     with contextlib.redirect_stdout(io.StringIO()):
                         sm.run_to_completion(st, dict(ev))
                     step["out"] = [_clean_event(e) for e in st.outgoing_events]
                 except Exception as e:  # noqa
                     step["exc"] = type(e).__name__ + ": " + str(e)[:100]
-                step["flows"] = snap()
+                step["flows"] = snap(step["inst"]) if "inst" in step else snap()
                 step["missing_actions"] = sorted({u for fs in st.flow_states.values() for u in fs.action_uids if u not in st.actions})
                 step["ncalls"] = len(rec.calls)
                 run["steps"].append(step)
@@ -1040,21 +1077,40 @@ def fits(case, f):
 
 
 def oracle_run(case, run):
-    flows = case["flows"]
-    step0 = run["steps"][0] if run["steps"] else None
     for k, st in enumerate(run["steps"]):
         if "exc" in st:
             return f"run_to_completion raised on event #{k}: {st['exc']}"
         if st["missing_actions"]:
             return f"after event #{k} flows reference actions that are no longer in state.actions"
-    if step0 is None:
+    if not run["steps"]:
         return None
-    if len(run["inst"]) != len(flows):
-        return None  # a competing flow never got started (generator limit), nothing to judge
-    main_loop = None
+    r = oracle_round(case, run, 0)
+    if r:
+        return r
+    # further rounds: the same (restarted) flows compete on an event E with another payload
+    for k, pl in enumerate(case.get("rounds", []), start=1):
+        if k < len(run["steps"]):
+            r = oracle_round(dict(case, payload=pl), run, k)
+            if r:
+                return f"round {k + 1} (payload {pl}): " + r
+    return None
+
+
+def rounds_judged(case, run):
+    return sum(1 for k in range(1, 1 + len(case.get("rounds", []))) if k < len(run["steps"]) and len(run["steps"][k].get("inst", {})) == len(case["flows"]))
+
+
+def oracle_round(case, run, k):
+    """The property on the k-th event of a run (k = 0: the first event E; k > 0: a later round of a `rounds` case)."""
+    flows = case["flows"]
+    step0 = run["steps"][k]
+    before = step0.get("before", run["before"])
+    if len(step0.get("inst", run["inst"])) != len(flows):
+        return None  # a competing flow never got (re)started, nothing to judge
+    calls0 = run["calls"][(run["steps"][k - 1].get("ncalls", 0) if k else 0): step0.get("ncalls", 0)]
     loops = {}
     for i, f in enumerate(flows):
-        b = run["before"][f"f{i}"]
+        b = before[f"f{i}"]
         loops[i] = b["loop"]
     out = step0["out"]
     starts = [e for e in out if e["type"].startswith("Start") and e["type"].endswith("Action") or e["type"] == "Foo"]
@@ -1075,7 +1131,7 @@ def oracle_run(case, run):
         for i in idx:
             if i in comp:
                 continue
-            b, a = run["before"][f"f{i}"], step0["flows"][f"f{i}"]
+            b, a = before[f"f{i}"], step0["flows"][f"f{i}"]
             if a is None or (a["status"], a["pos"], a["acts"]) != (b["status"], b["pos"], b["acts"]):
                 return f"flow f{i} whose match does not fit the event was touched: {b} -> {a}"
         if not comp:
@@ -1093,7 +1149,7 @@ def oracle_run(case, run):
             return ("Foo" if f["kind"] == "send" else "StartUtteranceBotAction", f"{lname}-{f['act']}")
 
         # "chosen arbitrarily among EXACT ties": two competing flows whose specificity differs never reach the tie-break together
-        for call in run["calls"][: step0.get("ncalls", 0)]:
+        for call in calls0:
             hs = [(h, _flow_index(h.get("root") or h["flow_id"])) for h in call["heads"] if h["loop"] == loop]
             for a_, (h1, i1) in enumerate(hs):
                 for h2, i2 in hs[a_ + 1:]:
@@ -1204,6 +1260,14 @@ def _tags(case, obs):
         t.append("mode:" + case["mode"])
         for f in case["flows"]:
             t.append("shape:" + f["shape"])
+            if f.get("wait"):
+                t.append("wait:" + f["wait"]["kind"])
+            for p_ in f.get("pre", []):
+                t.append("pre:" + p_)
+            if f.get("wrap"):
+                t.append(f"wrap:{f['wrap']}")
+        if case.get("rounds"):
+            t.append(f"later-rounds-judged:{sum(rounds_judged(case, r) for r in obs['runs'] if 'steps' in r)}")
     for c in calls:
         t.append(f"heads:{min(len(c['heads']), 8)}")
         t.append(f"loops:{len({h['loop'] for h in c['heads']})}")
@@ -1264,6 +1328,8 @@ def shrink(case):
                     pass
                 nf = fl[:i] + [g] + fl[i + 1:]
                 yield dict(case, flows=nf, followup=any(x["stop_after"] for x in nf))
+    if case.get("rounds"):
+        yield dict(case, rounds=case["rounds"][:-1])
     if isinstance(case.get("choices"), list) and len(case["choices"]) > 1:
         for c in case["choices"]:
             yield dict(case, choices=[c])
